@@ -95,6 +95,25 @@ fn free_jobs(prop: &str, seed: u64, variant: &str, fam: &str, shards: u64, count
         .collect()
 }
 
+fn miri_seq_jobs(prop: &str, seed: u64, n: u64) -> Vec<Job> {
+    (0..n)
+        .map(|k| {
+            let mut j = Job::new(
+                &format!("miri-seq-{}", k),
+                "cargo",
+                sv(&["+nightly", "miri", "run", "--offline", "--target-dir", "/verif/target/miri", "--", "seq", "--prop", prop, "--seed", &seed.to_string(), "--from", &(3_000_000 + k * 5).to_string(), "--count", "5"]),
+            );
+            j.cwd = Some("/verif/harness".into());
+            j.env.push(("MIRIFLAGS".into(), format!("-Zmiri-disable-isolation -Zmiri-ignore-leaks -Zmiri-seed={}", seed * 100 + k)));
+            j.env.push(("CARGO_NET_OFFLINE".into(), "true".into()));
+            j.timeout_s = 900;
+            j.death = Death::Inconclusive;
+            j.report_codes = vec![1];
+            j
+        })
+        .collect()
+}
+
 fn miri_jobs(prop: &str, seed: u64, fam: &str, n: u64, ops: u64) -> Vec<Job> {
     (0..n)
         .map(|k| {
@@ -115,7 +134,7 @@ fn miri_jobs(prop: &str, seed: u64, fam: &str, n: u64, ops: u64) -> Vec<Job> {
         .collect()
 }
 
-const SCHED_RULE: &str = "run r = generator(seed, r): configuration (freelist kind x layout x min segment size x capacity 256..1024 x retries x 2..4 threads x single-threaded prelude building a free list of 0..6 segments with 0..64 bytes of fresh space left) + one generated program per thread (alloc bytes/aligned/typed, borrowed and owned, fill, drop, detach, leak, clone/drop arena, discard_freelist, send/receive owned buffers) executed under the hook-serialised scheduler with a strategy in {random switching p=5/30/70%, PCT d=1..3, window sweep: park thread t at atomic event k of operation j until the others finish or spin}, optional spurious compare_exchange_weak failures; family A = byte allocations only, family B = typed and aligned allocations too, family T = 3..4 threads fighting for the last 16..48 bytes of fresh space (release-on-top keeps giving them back); distinct_nontrivial = distinct hashes of the schedule (sequence of thread choices) of runs with at least one preemption";
+const SCHED_RULE: &str = "run r = generator(seed, r): configuration (freelist kind x layout x min segment size x capacity 256..1024 x retries x 2..4 threads x single-threaded prelude building a free list of 0..6 segments with 0..64 bytes of fresh space left) + one generated program per thread (alloc bytes/aligned/typed, borrowed and owned, fill, drop, detach, leak, clone/drop arena, discard_freelist, send/receive owned buffers) executed under the hook-serialised scheduler with a strategy in {random switching p=5/30/70%, PCT d=1..3, window sweep: park thread t at atomic event k of operation j until the others finish or spin}, optional spurious compare_exchange_weak failures; family A = byte allocations only, family B = typed and aligned allocations too, family T = 3..4 threads fighting for the last 16..48 bytes of fresh space (release-on-top keeps giving them back), family P = 3..4 threads taking and giving back segments of five neighbouring sizes with no fresh space (colliding removals of adjacent nodes, failed unlinks, re-insertions); distinct_nontrivial = distinct hashes of the schedule (sequence of thread choices) of runs with at least one preemption";
 
 fn seq_rule(prop: &str) -> String {
     let nt = match prop {
@@ -160,6 +179,10 @@ pub fn plan(prop: &str, tier: &str, seed: u64) -> Option<Plan> {
             p.jobs = seq_jobs(prop, seed, "rel", 12, n_rel, secs, 0);
             // overflow-checked build: arena panics become observable events
             p.jobs.extend(seq_jobs(prop, seed, "dbg", 4, n_rel / 4, secs, 1_000_000));
+            if !quick && matches!(prop, "C01" | "C03" | "C08" | "C13") {
+                // Miri: provenance / alignment / uninitialised reads on the single-threaded paths (Vec backend only)
+                p.jobs.extend(miri_seq_jobs(prop, seed, 6));
+            }
             if prop == "C16" {
                 // static part: reserved 0..=4096 exhaustively, capacity around the prefix
                 for k in 0..4u64 {
@@ -242,7 +265,7 @@ pub fn plan(prop: &str, tier: &str, seed: u64) -> Option<Plan> {
                     p.jobs.push(j);
                 }
             }
-            p.required_nonzero = sv(&["c14_roundtrips", "c14_refusals", "c14_varint_roundtrips", "c14_align_ok", "c14_put_aligned_ok"]);
+            p.required_nonzero = sv(&["c14_roundtrips", "c14_refusals", "c14_varint_roundtrips", "c14_varint_fill_ok", "c14_align_ok", "c14_put_aligned_ok"]);
             p.extra_prefixes = vec!["c14_"];
             p.assumptions = vec![
                 "bytes inside the buffer after a refused varint put are not asserted (the statement promises unchanged bytes only for fixed-width puts)".into(),
@@ -384,6 +407,7 @@ pub fn plan(prop: &str, tier: &str, seed: u64) -> Option<Plan> {
             p.jobs.extend(sched_jobs(prop, seed, "A", 6, count, secs, false));
             p.jobs.extend(sched_jobs(prop, seed, "B", 6, count, secs, false));
             p.jobs.extend(sched_jobs(prop, seed, "T", 6, if quick { 9000 } else { 400000 }, secs, false));
+            p.jobs.extend(sched_jobs(prop, seed, "P", if quick { 3 } else { 6 }, if quick { 9000 } else { 600000 }, secs, false));
             p.jobs.extend(sched_jobs(prop, seed + 7, "A", 2, count / 8, secs, true));
             p.jobs.extend(sched_jobs(prop, seed + 7, "B", 2, count / 8, secs, true));
             match prop {
